@@ -20,7 +20,7 @@ from common import enc_str
 
 OBJECT_SIGS = set(x + y for x in ('object-not-stored-once', 'object-styles-missing', 'object-mediatype', 'picture-missing', 'picture-mediatype')
                   for y in ('', '-after-load'))
-NAMES = [u'/MyObj', u'MyObj', u'/Object 9', u'/Object 1', u'/Obj/x']
+NAMES = [u'/MyObj', u'MyObj', u'/Object 9', u'/Object 1', u'Object 2', u'/Obj/x', u'//Sub obj', u'\xe9\u6f22']
 
 
 # ------------------------------------------------------------------------------------------------ generation
@@ -91,20 +91,18 @@ def gen_pkg(rng):
             'root_first': rng.random() < 0.7, 'extras': rng.random() < 0.3}
 
 
-def py_ordered(h):
-    """the hypothesis of ref_names_folder_partial, written from its wording: default names only, every parent hangs
-    under the root when it gets a child, and the child has no objects of its own at that time"""
-    n = len(h['docs'])
-    parent = {}; has_kids = set()
-    for p, c, name in h['ops']:
-        if name is not None:
-            return False
+def py_parents_first(h, refused=()):
+    """the hypothesis of ref_names_folder_partial, written from its wording: every parent hangs under the saved document
+    (document 0) at the time it gets a child.  `refused` = indexes of the calls that raised ValueError (they attach nothing)"""
+    parent = {}
+    for i, (p, c, name) in enumerate(h['ops']):
         x = p
         while x in parent:
             x = parent[x]
-        if x != 0 or c in has_kids:
+        if x != 0:
             return False
-        parent[c] = p; has_kids.add(p)
+        if i not in refused:
+            parent[c] = p
     return True
 
 
@@ -130,50 +128,59 @@ def run_hist(chk, drv, h, oracle_only=False):
             c03.apply_pics(ctx, m, ds['pics'])
             ms.append(m)
         pre_tokens = [m.tokens() for m in ms]           # the documents before any attachment
-        refs = []
-        parent = {}
-        for p, c, name in h['ops']:
-            r = ms[p].real.addObject(ms[c].real, name)
+        refs = []                                       # per op: the returned reference, or None if the call raised ValueError
+        parents = {}                                    # child -> [parent, ...] of the successful calls
+        refused = set()
+        for i, (p, c, name) in enumerate(h['ops']):
+            before = (list(ms[p].real.childobjects), [m.real.folder for m in ms])
+            try:
+                r = ms[p].real.addObject(ms[c].real, name)
+            except ValueError:
+                refused.add(i); refs.append(None)
+                chk.count('addobject_refused_duplicate_name')
+                if (list(ms[p].real.childobjects), [m.real.folder for m in ms]) != before:
+                    fails.append(('addobject-refusal-not-atomic', 'addObject(%d <- %d, %r) raised ValueError but changed the documents' % (p, c, name)))
+                continue
             refs.append(r)
-            parent[c] = (p, name)
+            parents.setdefault(c, []).append(p)
             if h['docs'][p]['kind'] == 'text':
                 frame_for(ms[p].real, c, r)
+        twice = any(len(v) > 1 for v in parents.values())
         raw, _ = pk.save_real(ms[0].real)
         arch = pk.read_archive(raw)
         files = {}
         for m in ms:
             files.update(m.files)
         marker_of = dict((i, i) for i in range(len(ms)))
-        ordered = py_ordered(h)
+        pfirst = py_parents_first(h, refused)
 
-        def reachable(c):
-            while c in parent:
-                c = parent[c][0]
-            return c == 0
-        def explicit_on_chain(c):
-            while c in parent:
-                if parent[c][1] is not None:
-                    return True
-                c = parent[c][0]
-            return False
+        def reachable(c, seen=()):
+            return c == 0 or any(reachable(p, seen + (c,)) for p in parents.get(c, []) if p not in seen)
         # ---- oracle: every returned reference names the folder of its object
         res = []
         for (p, c, name), r in zip(h['ops'], refs):
+            if r is None:
+                res.append(None); continue
             why = pk.resolve_ref(arch, r, c, ms[c].mimetype)
             res.append(why is None)
             if not reachable(c):
                 continue
             chk.count('refs_checked')
             if why is not None:
-                sig = ('explicit-objectname' if explicit_on_chain(c) else
-                       'child-attached-before-parent' if not ordered else 'reference-does-not-resolve')
+                sig = ('same-document-attached-twice' if twice else
+                       'child-attached-before-parent' if not pfirst else 'reference-does-not-resolve')
                 fails.append((sig, 'addObject(%d <- %d, %r) returned %r: %s' % (p, c, name, r, why)))
             else:
                 chk.count('refs_resolved')
+                if name is not None:
+                    chk.count('explicit_name_refs_resolved')
+        if twice:
+            chk.count('outside_model_attached_twice')
+            return fails, refs, arch
         # the rest of the archive must be truthful too (pictures of objects under their folder ...)
         top = ms[0]
         def link(m, i):
-            m.kids = [link(ms[c], c) for (p, c, _n) in h['ops'] if p == i]
+            m.kids = [link(ms[c], c) for k, (p, c, _n) in enumerate(h['ops']) if p == i and k not in refused]
             return m
         link(top, 0)
         for sig, d in pk.oracle_c03(arch, top):
@@ -193,10 +200,10 @@ def run_hist(chk, drv, h, oracle_only=False):
                 chk.corr_diff(h, 'refs %r' % refs, ans, 'driver refused the history')
             else:
                 head, listing = ans[3:].split(' ; ', 1)
-                impl = 'ordered=%d R %s' % (ordered, ' '.join('%d %s %d' % (c, enc_str(r), ok)
-                                                                for (p, c, n), r, ok in zip(h['ops'], refs, res)))
+                impl = 'parentsFirst=%d R %s' % (pfirst, ' '.join('E' if r is None else '%d %s %d' % (c, enc_str(r), ok)
+                                                                     for (p, c, n), r, ok in zip(h['ops'], refs, res)))
                 if impl.strip() != head.strip():
-                    chk.corr_diff(h, impl, head, 'references returned by addObject / ordered / resolves')
+                    chk.corr_diff(h, impl, head, 'references returned by addObject (E = ValueError) / parentsFirst / resolves')
                 pk.compare_listing(chk, h, listing, arch, files, marker_of, 'archive saved after the attachment history')
         # ---- part B: load + save
         fails += reload_checks(chk, drv, h, raw, arch, dict((i, m.mimetype) for i, m in enumerate(ms)), oracle_only)
@@ -228,11 +235,13 @@ def travel_checks(arch1, arch2):
         if G1 == '' or len(w2[mk]) != 1:
             continue
         G2 = w2[mk][0]
+        if G2 != G1:
+            out.append(('object-folder-renamed-after-reload', 'object %d stored in %r is in %r after load+save' % (mk, G1, G2)))
         for n, _, _, d in arch1.members:
             if not n.startswith(G1) or n.endswith('/'):
                 continue
             rel = n[len(G1):]
-            if rel in ('content.xml', 'styles.xml', 'settings.xml', 'meta.xml') or re.match(r'Object \d+/', rel):
+            if rel in ('content.xml', 'styles.xml', 'settings.xml') or re.match(r'Object \d+/', rel):
                 continue
             if data2.get(G2 + rel) != d:
                 out.append(('object-pictures-not-loaded' if rel.startswith('Pictures/') else 'object-files-not-loaded',
@@ -279,7 +288,7 @@ def reload_checks(chk, drv, case, raw, arch, mimetypes, oracle_only, contiguous=
     from odf.opendocument import load
     fails = []
     d2 = load(io.BytesIO(raw))
-    m2 = c03.mirror_of_loaded(d2)
+    m2 = c03.mirror_of_loaded(d2, pk.dedup_keys(pspec['manifest'] if pspec is not None else arch.manifest))
     raw2, _ = pk.save_real(d2)
     arch2 = pk.read_archive(raw2)
     r, n = ref_checks(arch, arch2, mimetypes, contiguous, permuted)
@@ -307,7 +316,7 @@ def reload_checks(chk, drv, case, raw, arch, mimetypes, oracle_only, contiguous=
             state, listing = ans[3:].split(' ; ', 1)
             impl = ' '.join(m2.tokens())
             if impl != state:
-                chk.corr_diff(case, impl[:1500], state[:1500], 'document state after load()')
+                chk.corr_diff(case, *(pk.diff_window(impl, state) + ('document state after load()',)))
             marker_of = dict((x.id, x.marker) for x in m2.walk())
             pk.compare_listing(chk, case, listing, arch2, {}, marker_of, 'archive saved after load()')
     return fails
